@@ -50,4 +50,14 @@ META = {
         ["order_greedy", "order_none", "order_explicit", "order_minfill", "order_minneighbors", "order_minweight",
          "order_weightedminfill", "evidence_on_ancestor", "evidence_on_descendant", "virtual_evidence", "card1_variable", "zero_cell"],
     ),
+    "C15": _m(
+        "one evaluation = one edit history (5..30 ops quick, ..60 thorough) on one model kind (BayesianNetwork incl. DAG construction 60%, "
+        "DynamicBayesianNetwork 20%, JunctionTree 10%, MarkovNetwork 10%) over a universe of <=6 labelled variables; up to 3 live models "
+        "(copies, do()/get_random_cpds results) are edited in turn; a PRNG-chosen share of ops carries invalid arguments (cycle-closing "
+        "edge, self-loop, absent node, CPD on unknown variable, stale parents, non-CPD object, backward / multi-slice DBN edge, clique edge "
+        "without sepset or closing a cycle).  Non-trivial = at least one op executed and checked; distinct = distinct trace digest.",
+        "faults = refused operations placed at arbitrary points of the history (reject_op counts the refusals that actually happened), "
+        "relabelling (hash order) and RNG reseeding before get_random_cpds",
+        [],
+    ),
 }
